@@ -454,7 +454,8 @@ theorem buildEntry_body (suf : Str) (c : Correction) (sep : List Str) (p : Pendi
       e.name = p.name ∧ e.attrsStr = p.attrsStr ∧ e.input = c.input ∧ e.hlen = p.hlen ∧ e.dlen = c.dlen ∧
       e.attrs = p.attrs ∧
       (p.attrs.cst = false → e.output = normalizeSexp ('\n' :: (trim c.output ++ '\n' :: sep.flatten)) ∧
-        e.hasFields = hasFieldsOf e.output) := by
+        e.hasFields = hasFieldsOf e.output) ∧
+      (p.attrs.cst = true → e.output = trim ('\n' :: (trim c.output ++ '\n' :: sep.flatten)) ∧ e.hasFields = false) := by
   have hin : ∀ l ∈ splitIncl (c.input ++ ['\n']), NoDelim '-' l := fun l hl => (h.inputLines l hl).2
   have hrest : ∀ l ∈ splitIncl (trim c.output ++ ['\n']) ++ sep, NoDelim '-' l := by
     intro l hl
@@ -470,12 +471,16 @@ theorem buildEntry_body (suf : Str) (c : Correction) (sep : List Str) (p : Pendi
     simp only [bestDivider, parseDelimLine_rep '-' c.dlen suf h.dlen (by decide) hs, suffixMatches_fsOf,
       Bool.true_and, ge_iff_le, Nat.zero_le, decide_true, ↓reduceIte, Nat.zero_add, hnl]
     exact bestDivider_noDelim_end _ _ _ _ _ hrest
-  refine ⟨_, by simp only [buildEntry, hbest]; rfl, rfl, rfl, ?_, rfl, rfl, rfl, ?_⟩
+  refine ⟨_, by simp only [buildEntry, hbest]; rfl, rfl, rfl, ?_, rfl, rfl, rfl, ?_, ?_⟩
   · simp only [bodyL, List.append_assoc]
     rw [List.take_left' rfl, splitIncl_flatten]
     exact h.inputCr
   · intro hcst
     simp only [hcst, Bool.false_eq_true, ↓reduceIte, bodyL, List.append_assoc, List.cons_append]
+    rw [drop_len_succ]
+    simp [splitIncl_flatten]
+  · intro hcst
+    simp only [hcst, ↓reduceIte, bodyL, List.append_assoc, List.cons_append]
     rw [drop_len_succ]
     simp [splitIncl_flatten]
 
@@ -606,9 +611,10 @@ def outSection (c : Correction) (sepf : Str) : Str := '\n' :: (trim c.output ++ 
 /-- Entry `e` is what the reader returns for the written correction `c`. -/
 def Built (os : Str) (e : Entry) (c : Correction) : Prop :=
   e.dkey = c.dkey ∧ e.attrs = flagsOf os c.name c.attrsStr ∧
-  ((∀ l ∈ splitIncl (c.attrsStr ++ ['\n']), noCstLine l) →
-    ∃ sepf, (sepf = [] ∨ sepf = ['\n']) ∧ e.output = normalizeSexp (outSection c sepf) ∧
-      e.hasFields = hasFieldsOf e.output)
+  ((∀ l ∈ splitIncl (c.attrsStr ++ ['\n']), noCstLine l) → e.attrs.cst = false) ∧
+  ∃ sepf, (sepf = [] ∨ sepf = ['\n']) ∧
+    (e.attrs.cst = false → e.output = normalizeSexp (outSection c sepf) ∧ e.hasFields = hasFieldsOf e.output) ∧
+    (e.attrs.cst = true → e.output = trim (outSection c sepf) ∧ e.hasFields = false)
 
 /-- The scanning loop over the remaining tests of a written file, a test `c0` being pending with its
 own body lines collected. -/
@@ -618,15 +624,16 @@ theorem scan_tail (os suf : Str) (hse : SufOK '=' suf) (hsd : SufOK '-' suf) :
       ∃ new, scan (fsOf suf) os (tailLines suf cs) 0 (some p0) (bodyL suf c0).reverse acc = acc ++ new ∧
         All2 (Built os) new (c0 :: cs)
   | [], c0, p0, acc, h0, hp0, _ => by
-    obtain ⟨e, he, h1, h2, h3, h4, h5, h7, h6⟩ := buildEntry_body suf c0 [] p0 h0 hsd (by simp)
+    obtain ⟨e, he, h1, h2, h3, h4, h5, h7, h6, h8⟩ := buildEntry_body suf c0 [] p0 h0 hsd (by simp)
     simp only [List.append_nil] at he
     refine ⟨[e], by simp [tailLines, scan, finishPrev, he], ?_⟩
-    refine All2.cons ⟨dkey_of_built hp0 h1 h2 h3 h4 h5, h7.trans hp0.2.2.2.2, fun hc => ⟨[], Or.inl rfl, ?_⟩⟩ All2.nil
-    have h6' := h6 (hp0.2.2.2.1 hc)
-    exact ⟨by simpa [outSection] using h6'.1, h6'.2⟩
+    refine All2.cons ⟨dkey_of_built hp0 h1 h2 h3 h4 h5, h7.trans hp0.2.2.2.2,
+      fun hc => by rw [h7]; exact hp0.2.2.2.1 hc, [], Or.inl rfl, ?_, ?_⟩ All2.nil
+    · intro hc; have h6' := h6 (h7 ▸ hc); exact ⟨by simpa [outSection] using h6'.1, h6'.2⟩
+    · intro hc; have h8' := h8 (h7 ▸ hc); exact ⟨by simpa [outSection] using h8'.1, h8'.2⟩
   | c :: cs, c0, p0, acc, h0, hp0, h => by
     have hc := h c (by simp)
-    obtain ⟨e, he, h1, h2, h3, h4, h5, h7, h6⟩ := buildEntry_body suf c0 [['\n']] p0 h0 hsd
+    obtain ⟨e, he, h1, h2, h3, h4, h5, h7, h6, h8⟩ := buildEntry_body suf c0 [['\n']] p0 h0 hsd
       (by intro l hl; simp at hl; subst hl; exact noDelim_nl '-' (by decide))
     have e1 : tailLines suf (c :: cs) = ['\n'] :: (hdrL suf c ++ (bodyL suf c ++ tailLines suf cs)) := by
       simp [tailLines]
@@ -640,9 +647,10 @@ theorem scan_tail (os suf : Str) (hse : SufOK '=' suf) (hsd : SufOK '-' suf) :
     simp only [List.append_nil]
     obtain ⟨new, hnew, hf2⟩ := scan_tail os suf hse hsd cs c p (acc ++ [e]) hc hpc (fun x hx => h x (by simp [hx]))
     refine ⟨e :: new, by rw [hnew]; simp, ?_⟩
-    refine All2.cons ⟨dkey_of_built hp0 h1 h2 h3 h4 h5, h7.trans hp0.2.2.2.2, fun hcc => ⟨['\n'], Or.inr rfl, ?_⟩⟩ hf2
-    have h6' := h6 (hp0.2.2.2.1 hcc)
-    exact ⟨by simpa [outSection] using h6'.1, h6'.2⟩
+    refine All2.cons ⟨dkey_of_built hp0 h1 h2 h3 h4 h5, h7.trans hp0.2.2.2.2,
+      fun hcc => by rw [h7]; exact hp0.2.2.2.1 hcc, ['\n'], Or.inr rfl, ?_, ?_⟩ hf2
+    · intro hcc; have h6' := h6 (h7 ▸ hcc); exact ⟨by simpa [outSection] using h6'.1, h6'.2⟩
+    · intro hcc; have h8' := h8 (h7 ▸ hcc); exact ⟨by simpa [outSection] using h8'.1, h8'.2⟩
 
 /-! ## the file's suffix as the reader discovers it -/
 
@@ -697,6 +705,18 @@ theorem firstSuffix_written (suf : Str) (hse : SufOK '=' suf) (c : Correction) (
       · subst hl; rw [parseDelimLine_noDelim (noDelim_nl '=' (by decide))] at hp; simp at hp
       · exact key c' (h c' (by simp [hc'])) l hl n s hp
 
+/-- The scanning loop on the lines of a written file, whatever non-test lines were collected before. -/
+theorem scan_written (os suf : Str) (hse : SufOK '=' suf) (hsd : SufOK '-' suf) (c : Correction) (cs : List Correction)
+    (h : ∀ x ∈ c :: cs, Simple x) (body : List Str) :
+    All2 (Built os) (scan (fsOf suf) os (hdrL suf c ++ (bodyL suf c ++ tailLines suf cs)) 0 none body []) (c :: cs) := by
+  have hc := h c (by simp)
+  obtain ⟨p, hpc, hstep⟩ := scan_hdr os suf hse c hc (bodyL suf c ++ tailLines suf cs) none body []
+  rw [hstep, scan_noHeader _ _ _ _ _ _ _ (bodyL_noHeader suf c hc)]
+  obtain ⟨new, hnew, hf2⟩ := scan_tail os suf hse hsd cs c p [] hc hpc (fun x hx => h x (by simp [hx]))
+  simp only [finishPrev, List.append_nil, List.nil_append] at hnew ⊢
+  rw [hnew]
+  exact hf2
+
 /-- `parse_write_roundtrip` for `Simple` corrections, relational form: the reader applied to the written
 file returns exactly one entry per correction, in order, each `Built` from its correction. -/
 theorem roundtrip_built (os suf : Str) (hse : SufOK '=' suf) (hsd : SufOK '-' suf) (cs : List Correction)
@@ -708,15 +728,9 @@ theorem roundtrip_built (os suf : Str) (hse : SufOK '=' suf) (hsd : SufOK '-' su
       simp [parseFile, writeTests, splitIncl, scan, finishPrev, firstSuffix]
     rw [this]; exact All2.nil
   | cons c cs =>
-    have hc := h c (by simp)
     unfold parseFile
     simp only [splitIncl_writeTests suf hse.2 c cs h, firstSuffix_written suf hse c cs h]
-    obtain ⟨p, hpc, hstep⟩ := scan_hdr os suf hse c hc (bodyL suf c ++ tailLines suf cs) none [] []
-    rw [hstep, scan_noHeader _ _ _ _ _ _ _ (bodyL_noHeader suf c hc)]
-    obtain ⟨new, hnew, hf2⟩ := scan_tail os suf hse hsd cs c p [] hc hpc (fun x hx => h x (by simp [hx]))
-    simp only [finishPrev, List.append_nil, List.nil_append] at hnew ⊢
-    rw [hnew]
-    exact hf2
+    exact scan_written os suf hse hsd c cs h []
 
 theorem forall2_map_dkey {os : Str} {es : List Entry} {cs : List Correction} (h : All2 (Built os) es cs) :
     es.map Entry.dkey = cs.map Correction.dkey := by
